@@ -4,13 +4,15 @@ go 1.26
 
 toolchain go1.26.4
 
-require github.com/basekick-labs/arc v0.0.0
+require (
+	github.com/Basekick-Labs/msgpack/v6 v6.1.0
+	github.com/basekick-labs/arc v0.0.0
+	github.com/rs/zerolog v1.34.0
+)
 
 require (
-	github.com/Basekick-Labs/msgpack/v6 v6.1.0 // indirect
 	github.com/mattn/go-colorable v0.1.14 // indirect
 	github.com/mattn/go-isatty v0.0.20 // indirect
-	github.com/rs/zerolog v1.34.0 // indirect
 	github.com/vmihailenco/tagparser/v2 v2.0.0 // indirect
 	golang.org/x/sys v0.46.0 // indirect
 )
